@@ -6,6 +6,8 @@ pub mod judge;
 pub mod lang;
 pub mod lang2;
 pub mod source;
+pub mod staged;
+pub mod vm;
 
 use super::{Ctx, Report};
 
@@ -18,6 +20,10 @@ pub fn dispatch(ctx: &Ctx, rep: &mut Report) -> bool {
         "C15" => lang::c15(ctx, rep),
         "C14" => lang2::c14(ctx, rep),
         "C07" => lang2::c07(ctx, rep),
+        "C06" => staged::c06(ctx, rep),
+        "C06calibrate" => staged::calibrate(ctx, rep),
+        "C05" => vm::c05(ctx, rep),
+        "C08" => vm::c08(ctx, rep),
         "C02" => bytecode::c02(ctx, rep),
         "C03" => bytecode::c03(ctx, rep),
         "C04" => bytecode::c04(ctx, rep),
